@@ -495,7 +495,7 @@ func runC13(s *sim.Sim, concurrent bool) {
 		q := c13query{kind: sim.Pick(s, "query", "shard", "shard-lookback", "shard", "shard-lookback", "get", "healthy", "replset", "instance", "zone", "counts", "subring-op", "whole")}
 		q.id = []string{"t1", "t2"}[s.Choose(2, "tenant")]
 		q.size = sim.Pick(s, "size", 0, 1, 2, 3, 1, 2, 6, 7)
-		q.lookback = sim.Pick(s, "lookback", time.Minute, 10*time.Minute, 10*time.Minute, time.Hour, 3*time.Hour)
+		q.lookback = sim.Pick(s, "lookback", time.Minute, 10*time.Minute, 10*time.Minute, time.Hour, 3*time.Hour, time.Minute+500*time.Millisecond, 10*time.Minute+500*time.Millisecond)
 		q.nowOff = sim.Pick(s, "now-offset", 0, 0, -time.Minute, -10*time.Minute, -time.Hour, -3*time.Hour, time.Minute, 10*time.Minute, time.Hour)
 		q.op = s.Choose(len(allOps), "op")
 		q.key = c13keys[s.Choose(len(c13keys), "key")]
